@@ -328,6 +328,30 @@ theorem C08_router_never_forwards_broadcast (fuel : Nat) (st : St) (n i : Nat) (
     routerProcess (fuel + 1) st n i f = (st, f) := by
   simp only [routerProcess, hb, beq_self_eq_true, if_true]
 
+/-! ### switches: learned port, else flood -/
+
+/-- A switch that knows the destination MAC (after learning the source) sends a unicast frame out of exactly that port. -/
+theorem C08_switch_known_unicast (fuel : Nat) (st : St) (n i p : Nat) (f : Frame) (nd : Node)
+    (hn : (st.modNode n (fun nd => nd.learnMac f.srcMac i)).node? n = some nd)
+    (hp : nd.macPort f.dstMac = some p) (hu : (f.dstMac != bcastMac) = true) :
+    switchRecv (fuel + 1) st n i f = sendFrame fuel (st.modNode n (fun nd => nd.learnMac f.srcMac i)) n p f := by
+  simp only [switchRecv, hn, hp, hu, if_true]
+
+/-- Unknown destination MAC (or a broadcast): the ONE frame object is offered to every port in port order; the flood loop
+skips disabled ports and the ingress port. -/
+theorem C08_switch_unknown_floods (fuel : Nat) (st : St) (n i : Nat) (f : Frame) (nd : Node)
+    (hn : (st.modNode n (fun nd => nd.learnMac f.srcMac i)).node? n = some nd)
+    (hp : nd.macPort f.dstMac = none) :
+    switchRecv (fuel + 1) st n i f =
+      floodPorts fuel (st.modNode n (fun nd => nd.learnMac f.srcMac i)) n i f (List.range nd.ifaces.length) := by
+  simp only [switchRecv, hn, hp]
+
+/-- the flood never goes back out of the ingress port and never out of a disabled port. -/
+theorem C08_flood_skips (fuel : Nat) (st : St) (n i p : Nat) (f : Frame) (ps : List Nat) (pif : Iface)
+    (hp : st.iface? n p = some pif) (hskip : (pif.enabled && p != i) = false) :
+    floodPorts (fuel + 1) st n i f (p :: ps) = floodPorts (fuel + 1) st n i f ps := by
+  simp only [floodPorts, List.foldl_cons, hp, hskip, Bool.false_eq_true, if_false]
+
 /-! ### addressee, per hop (the run-level theorems are in `Props/C08Addressee.lean`) -/
 
 /-- (repaired `NIC.receive_frame`) a host NIC passes a unicast frame up only if it is for the NIC's MAC address AND for an
